@@ -231,6 +231,10 @@ func (e *env) frameLeaves(obj any, t *sdl.Type, fr *sdl.Frame) []reflect.Value {
 		return []reflect.Value{rw(rw(top.FieldByName(fr.Field)).FieldByName("X"))}
 	case "taggedEmbed":
 		return []reflect.Value{rw(rw(top.FieldByName(t.Name + "G" + fr.Field)).FieldByName("X" + fr.Field))}
+	case "prefixer":
+		f := rw(top.FieldByName(fr.Field))
+		f.FieldByName("Section").SetString("sim.sub")
+		return []reflect.Value{f.FieldByName("A")}
 	case "ptrEmbed":
 		return []reflect.Value{rw(top.FieldByName(t.Name + "Q" + fr.Field))}
 	case "ptrEmbedSet":
